@@ -678,7 +678,9 @@ func (mpt *MerklePatriciaTrie) deleteAtNode(key Key, node Node, prefix, path Pat
 			nnode := cnode.Clone().(*LeafNode)
 			nnode.SetOrigin(mpt.Version)
 			nnode.Prefix = concat(prefix)
-			nnode.Path = append(nodeImpl.Path, cnodeImpl.Path...)
+			// concat always creates a new slice: nodeImpl may be the node db's own object
+			// and other tries append to the same backing array of its path
+			nnode.Path = concat(nodeImpl.Path, cnodeImpl.Path...)
 			nnode.SetValue(cnodeImpl.GetValue())
 			if err := mpt.deleteNode(cnode); err != nil {
 				return nil, nil, err
